@@ -26,6 +26,24 @@ assignment, forest shape, attribute content and encoding parameters.
 namespace Gimli.Props.C02
 open Gimli Gimli.Attr Gimli.Abbrev Gimli.Die Gimli.Spec Gimli.Spec.Forest Gimli.Spec.Unit Gimli.Spec.AbbrevTable
 
+/-! ## (0) well-formedness comes from the spec encoders -/
+
+/-- An entry whose attribute bytes are the DWARF encoding (`Spec.Attr.encodeAttrs`, C03) of some
+payloads for the attributes its abbreviation declares is readable (`NodeOK`): the hypothesis of
+the theorems below is met by everything a producer writes according to the spec. -/
+theorem node_ok_of_encoded (ctx : Ctx) (d : Node) (a : Abbreviation) (ps : List Payload)
+    (hc0 : d.code ≠ 0) (hc64 : d.code < 2 ^ 64) (ht0 : d.tag ≠ 0)
+    (hget : ctx.abbrevs.get d.code = some a) (htag : a.tag = d.tag) (hch : a.hasChildren = d.children)
+    (hlen : ps.length = a.attrs.length)
+    (henc : Spec.Attr.encodeAttrs ctx.enc (a.attrs.zip ps) = some d.attrBytes)
+    (himp : ∀ sp ∈ a.attrs.zip ps, sp.1.form = .implicitConst → sp.2 = .int sp.1.implicitConst) :
+    NodeOK ctx d := by
+  refine ⟨hc0, hc64, ht0, a, hget, htag, hch,
+    (a.attrs.zip ps).map (fun sp => ⟨Spec.Attr.rawKind ctx.enc sp.1.name sp.1.form, sp.2⟩), fun rest => ?_⟩
+  have h := C03.read_attributes_roundtrip ctx.enc (a.attrs.zip ps) d.attrBytes rest henc himp
+  rw [List.map_fst_zip (by omega)] at h
+  exact h
+
 /-! ## (1) raw entry reading reports exactly the depth-first listing -/
 
 /-- **`raw_is_dfs`.** Reading the body of a well-formed unit entry by entry
